@@ -64,6 +64,8 @@ def run_case(c):
         if c['kpm']:
             kpm = torch.rand(B, S, generator=g) < 0.4
             kpm[:, 0] = False
+            if c['kpm'] == 'float':       # an additive key padding mask (torch accepts it when the attention mask is absent or float as well)
+                kpm = torch.where(kpm, torch.full((B, S), -1.5), torch.zeros(B, S)) + 0.25 * torch.randn(B, S, generator=g)
         res = []
         for m in (t, d):
             for p in m.parameters():
